@@ -336,6 +336,26 @@ struct H {
         };
 
         Value<char> grouped;
+        // what the destination holds before the call must not show in the result: nothing, an earlier grouping of the same array by
+        // another key, an array, a string, a number, an object (chosen by the case bytes; the first render of every case is into a
+        // fresh destination through the template path below)
+        {
+            unsigned pre = 0;
+            for (uint8_t x : c.bytes) {
+                pre = pre * 31 + x;
+            }
+            switch (pre % 7) {
+                case 1: (void)src.GroupBy(grouped, "id"); break;
+                case 2: (void)src.GroupBy(grouped, kGroupKey); break;
+                case 3: grouped += 1; grouped += "two"; break;
+                case 4: grouped = "a string that owns its storage, longer than any inline buffer"; break;
+                case 5: grouped = 12.5; break;
+                case 6: grouped["old"] = 1; grouped["g"] = nullptr; break;
+                default: break;
+            }
+            static const char *pn[] = {"fresh", "earlier-grouping-other-key", "earlier-grouping-same-key", "array", "string", "number", "object"};
+            ctx.label(std::string("destination:") + pn[pre % 7]);
+        }
         bool        ok = src.GroupBy(grouped, kGroupKey);
         if (sc.objs.empty()) {
             // nothing to group: either outcome with an empty object is a partition of nothing
